@@ -84,8 +84,10 @@ CHECK = Check(
         "write_then_load_across (T3 across intervening calls on other paths), writeSlice_then_load_across (T4 likewise). "
         "Whole histories with any number of writers to one path: history_last_write_wins (pre ++ Write :: post, Write returned "
         "nil, post names other paths => the final Load returns that view) and history_last_writeSlice (the last WriteSlice "
-        "replaces exactly its block of what the history before it left). Not stated: a closed form for the content after "
-        "SEVERAL WriteSlice calls to one dataset (it is the fold of the per-call block replacement)",
+        "replaces exactly its block of what the history before it left). Several WriteSlice calls to ONE dataset, blocks "
+        "overlapping in any way: writeSlices_last_block_wins (every element is that of the LAST request whose block covers its "
+        "coordinate, else the original; shape and length kept, file well-formed). Not stated: mixed histories of Write AND "
+        "WriteSlice to one path in closed form (compose history_last_write_wins with writeSlices_last_block_wins by hand)",
         "load_selection_eq_nd_slice (Load with a selection = OW/Nd Slice(starts, counts, steps) of the loaded full array, "
         "read in row-major order) needs every extent of the dataset >= 1 and a selection that picks AT LEAST ONE index in "
         "every dimension; a selection that is empty in some dimension (stop <= start, start beyond the extent) returns an "
